@@ -55,7 +55,21 @@ def c04_unit(c):
     return None
 
 
+def c05_unit(c):
+    if c.get("fn") == "route" and c.get("c05"):
+        return "positioner %s, router %s: %s" % (c.get("alg"), c.get("route"), c["c05"])
+    return None
+
+
+def c06_unit(c):
+    if c.get("fn") == "route" and c.get("c06"):
+        return "positioner %s, router %s: %s" % (c.get("alg"), c.get("route"), c["c06"])
+    return None
+
+
 def c12_unit(c):
+    if c.get("fn") == "order" and c.get("reported") and sum(c["reported"]) != c.get("counted"):
+        return "the ordering phase reports %s crossings, the order it installs has %d" % (c["reported"], c["counted"])
     if c.get("fn") == "crossings" and c.get("count_impl") != c.get("count_naive"):
         return "the crossing counter reports %d crossings for an order that has %d (layer widths %s)" % (c["count_impl"], c["count_naive"], c.get("widths"))
     return None
@@ -73,9 +87,11 @@ PROPS = {
                 units=["vbalance", "normalize", "ns"], n_units=dict(quick=1200, thorough=12000), unit_classify=c03_unit),
     "C04": dict(units=["pos-sink", "pos-valign", "pos-packright", "pos-ns"], n_units=dict(quick=400, thorough=6000), unit_classify=c04_unit, trace_gen="C04", oracle="C04", relevant=rel({5: POS, 6: XY | SIZE, 9: {1}}),
                 n_trace=dict(quick=160, thorough=1500), n_search=dict(quick=3000, thorough=60000)),
-    "C05": dict(custom=["spline_step"], trace_gen="C05", oracle="C05", relevant=rel({6: XY, 7: ROUTE | STRUCT, 8: ROUTE | STRUCT, 9: {1, 2}}),
+    "C05": dict(units=["route-sink-polyline", "route-valign-ortho", "route-packright-straight", "route-bk-polyline"], n_units=dict(quick=200, thorough=4000), unit_classify=c05_unit,
+                custom=["spline_step"], trace_gen="C05", oracle="C05", relevant=rel({6: XY, 7: ROUTE | STRUCT, 8: ROUTE | STRUCT, 9: {1, 2}}),
                 n_trace=dict(quick=200, thorough=2000), n_search=dict(quick=3000, thorough=60000)),
-    "C06": dict(custom=["spline_step"], trace_gen="C06", oracle="C06", relevant=rel({5: STRUCT | LAYER | POS, 6: XY, 7: ROUTE | STRUCT, 9: {1, 2}}),
+    "C06": dict(units=["route-sink-ortho", "route-valign-polyline", "route-packright-ortho", "route-bk-straight"], n_units=dict(quick=200, thorough=4000), unit_classify=c06_unit,
+                custom=["spline_step"], trace_gen="C06", oracle="C06", relevant=rel({5: STRUCT | LAYER | POS, 6: XY, 7: ROUTE | STRUCT, 9: {1, 2}}),
                 n_trace=dict(quick=160, thorough=1500), n_search=dict(quick=3000, thorough=60000)),
     "C07": dict(trace_gen="C07", oracle="C07", relevant=rel({**{s: ALLF | COMP for s in list(range(0, 10)) + [16]}, 13: {0}, 15: ALLF | {0}}),
                 trace_env={"VH_DEEP": "1"}, n_trace=dict(quick=96, thorough=800), n_search=dict(quick=1500, thorough=20000)),
@@ -88,9 +104,9 @@ PROPS = {
                 n_trace=dict(quick=200, thorough=2000), n_search=dict(quick=1500, thorough=20000)),
     "C11": dict(trace_gen="C11", oracle="C11", relevant=rel({3: STRUCT, 4: LAYER}),
                 n_trace=dict(quick=200, thorough=2000), n_search=dict(quick=3000, thorough=60000)),
-    "C12": dict(units=["crossings"], n_units=dict(quick=240, thorough=4000), unit_classify=c12_unit, trace_gen="C12", oracle="C12", relevant=rel({5: POS | STRUCT, 6: XY, 7: ROUTE, 9: {1, 2}, 13: {0, 1}, 15: ALLF | {0}, 16: {2, 3, 4}}),
+    "C12": dict(units=["crossings", "order"], n_units=dict(quick=240, thorough=4000), unit_classify=c12_unit, trace_gen="C12", oracle="C12", relevant=rel({5: POS | STRUCT, 6: XY, 7: ROUTE, 9: {1, 2}, 13: {0, 1}, 15: ALLF | {0}, 16: {2, 3, 4}}),
                 trace_env={"VH_DEEP": "1"}, n_trace=dict(quick=96, thorough=800), n_search=dict(quick=1500, thorough=30000)),
-    "C13": dict(units=["crossings"], n_units=dict(quick=120, thorough=2000), unit_classify=c12_unit, trace_gen="C13", oracle="C13", relevant=rel({4: LAYER, 5: POS | STRUCT, 13: {0, 1}, 15: ALLF | {0}, 16: {4}}),
+    "C13": dict(units=["crossings", "order"], n_units=dict(quick=120, thorough=2000), unit_classify=c12_unit, trace_gen="C13", oracle="C13", relevant=rel({4: LAYER, 5: POS | STRUCT, 13: {0, 1}, 15: ALLF | {0}, 16: {4}}),
                 trace_env={"VH_DEEP": "1"}, n_trace=dict(quick=96, thorough=800), n_search=dict(quick=2000, thorough=40000)),
     "C14": dict(units=["p1greedy", "p1dfs"], n_units=dict(quick=1500, thorough=20000), trace_gen="C14", oracle="C14", relevant=rel({2: STRUCT, 3: STRUCT, 8: STRUCT}),
                 n_trace=dict(quick=200, thorough=2000), n_search=dict(quick=3000, thorough=60000)),
